@@ -6,7 +6,7 @@ from sexpr import enc, hexs
 from odata_query import ast
 
 PROP_MODS = ["ODataVerif.Tie.Sql", "ODataVerif.Tie.SqlTemplates", "ODataVerif.Props.C01", "ODataVerif.Props.C01Chain", "ODataVerif.Props.C01Full", "ODataVerif.Spec.NumFn"] + \
-            [m for m in ("ODataVerif.Props.DateOrder",) if os.path.exists(common.lean_module_path(m))]
+            ["ODataVerif.Props.DateOrder", "ODataVerif.Props.C01Date"]
 KF_SIG = "C01:sqlite:semOk-excluded"
 
 def texts_of(nodes):
@@ -164,6 +164,60 @@ def run(ctx):
     if dviol:
         ctx.broken.append(f"real SQLite result violates C01 on {len(dviol)} (filter,row) pairs of the date stream; first: {dviol[0][0]!r} row={dviol[0][1]}: {dviol[0][2]}"[:700])
     nviol = nviol + dviol
+    # 5. the date fragment as a typed grammar (Spec.DateF): toExpr tie, the property (evalDF), and the SQLite date model (sqlEvalD)
+    frows = sm.datef_rows()
+    fcon = sm.sqlite_table(frows)
+    FR = sm.enc_date_rows(frows)
+    dfs = list(dict.fromkeys(sm.gen_datef(rng, rng.randint(0, 3)) for _ in range(1500 if ctx.thorough else 300)))
+    ftally = collections.Counter()
+    wheres = []
+    for w, t in dfs:
+        r, tree = real_where(t)
+        wheres.append((w, t, r, tree))
+    exprs = driver.run_batch([driver.req("datefexpr", w) for w, t, r, tree in wheres])
+    evals = driver.run_batch([driver.req("datefeval", w, FR) for w, t, r, tree in wheres])
+    envs = driver.run_batch([driver.req("sqlitedate", r[3:], FR) if r.startswith("ok ") else driver.req("ping") for w, t, r, tree in wheres])
+    ctx.corr_names.append("date-fragment")
+    for (w, t, r, tree), ex, ev, en in zip(wheres, exprs, evals, envs):
+        ctx.evaluations += 1
+        if tree is None or enc(tree) != ex:
+            ftally["TOEXPR-DIFF"] += 1
+            ctx.diffs.append(("date-fragment-toExpr", t, enc(tree) if tree is not None else r, ex)); continue
+        if not r.startswith("ok "):
+            ftally["REFUSED"] += 1
+            nviol.append((t, None, f"the SQLite dialect refuses a filter of the date fragment: {r[:80]}")); continue
+        try:
+            ids = {x[0] for x in fcon.execute("SELECT id FROM t WHERE " + bytes.fromhex(r[3:]).decode())}
+        except Exception as e:  # noqa
+            nviol.append((t, None, f"SQLite rejected the WHERE text: {e}")); continue
+        sel = 0
+        for row, spec, env in zip(frows, ev.split(" "), en.split(" ") if en != "unreadable" else ["?"] * len(frows)):
+            a = "1" if row["id"] in ids else "0"
+            if env == "?":
+                ftally["env-outside-model"] += 1
+            elif env != a:
+                ftally["ENV-MISMATCH"] += 1
+                ctx.diffs.append(("date-fragment-env", (t, str(row["d1"])), a, env))
+            else:
+                ftally["env-agree"] += 1
+            if spec.startswith("x"):
+                ftally["excluded"] += 1; continue
+            if a != ("1" if spec == "T" else "0"):
+                ftally["SPEC-MISMATCH"] += 1
+                nviol.append((t, {"id": row["id"], "d1": str(row["d1"])}, f"SQLite {'selects' if a == '1' else 'does not select'} the row, OData semantics (Spec.evalDF) says {spec}"))
+            else:
+                ftally["spec-agree"] += 1; sel += int(a)
+        if 0 < sel < len(frows):
+            ctx.nontrivial.add("datef:" + t)
+    ctx.extra["judged_date_fragment"] = dict(ftally)
+    ctx.note(f"date fragment (Spec.DateF, {len(dfs)} filters of depth <= 3 x {len(frows)} rows): {dict(ftally)}")
+    nd = ftally["TOEXPR-DIFF"] + ftally["ENV-MISMATCH"]
+    if nd:
+        d0 = [d for d in ctx.diffs if d[0].startswith("date-fragment")][0]
+        ctx.broken.append(f"correspondence date-fragment: {nd} differences; first: {d0[0]} {d0[1]!r} real {str(d0[2])[:80]} model {str(d0[3])[:80]}")
+    if any(v[0] in {t for w, t in dfs} for v in nviol):
+        v0 = [v for v in nviol if v[0] in {t for w, t in dfs}][0]
+        ctx.broken.append(f"real SQLite result violates C01 on the date fragment; first: {v0[0]!r} row={v0[1]}: {v0[2]}"[:700])
 
     def search(ctx):
         found = []
